@@ -549,13 +549,7 @@ func c29Judge(r *verifkit.Run, items []c29Item, gov []c29Verdict, py, js c29Lang
 		if js.Why == "" {
 			j = &js.Results[i]
 		}
-		replay := map[string]any{"name": it.Name, "hex": hex.EncodeToString(it.Bytes), "text": string(bytes.ToValidUTF8(it.Bytes, []byte("�"))), "len": len(it.Bytes), "go": g}
-		if p != nil {
-			replay["python"] = *p
-		}
-		if j != nil {
-			replay["js"] = *j
-		}
+		replay := &c29Lazy{it: it, g: g, p: p, j: j}
 		for name, v := range map[string]*c29Verdict{"go": &g, "python": p, "js": j} {
 			if v != nil && v.Is == nil {
 				r.Violation("is_envelope_check_throws_"+name, fmt.Sprintf("%s: the is-envelope check raised instead of answering: %s", name, v.IsErr), replay)
@@ -617,6 +611,24 @@ func c29Judge(r *verifkit.Run, items []c29Item, gov []c29Verdict, py, js c29Lang
 			}
 		}
 	}
+}
+
+// c29Lazy renders the witness only when a violation is actually recorded (it is marshalled by the kit).
+type c29Lazy struct {
+	it   c29Item
+	g    c29Verdict
+	p, j *c29Verdict
+}
+
+func (l *c29Lazy) MarshalJSON() ([]byte, error) {
+	m := map[string]any{"name": l.it.Name, "hex": hex.EncodeToString(l.it.Bytes), "text": string(bytes.ToValidUTF8(l.it.Bytes, []byte("\ufffd"))), "len": len(l.it.Bytes), "go": l.g}
+	if l.p != nil {
+		m["python"] = *l.p
+	}
+	if l.j != nil {
+		m["js"] = *l.j
+	}
+	return json.Marshal(m)
 }
 
 func c29Show(b []byte) string {
@@ -820,7 +832,7 @@ const c29RuleRoundTrip = "[generated] PRNG envelope field assignments (unicode o
 
 func c29PhaseRoundTrip(r *verifkit.Run) []c29Item {
 	n := r.N(1500, 60000)
-	nx := r.N(1500, 20000) // how many of them also go to python/node
+	nx := r.N(1500, 30000) // how many of them also go to python/node
 	var items []c29Item
 	for ci := 0; ci < n; ci++ {
 		rng := r.Rand(ci)
@@ -1389,7 +1401,7 @@ func c29PhaseAgreement(r *verifkit.Run) []c29Item {
 	items := c29Fixed()
 	items = append(items, c29Systematic(r.Thorough())...)
 	r.Count("fixed_inputs", int64(len(items)))
-	n := r.N(2500, 60000)
+	n := r.N(2500, 80000)
 	for ci := 0; ci < n; ci++ {
 		rng := r.Rand(2000000 + ci)
 		var b []byte
